@@ -31,7 +31,8 @@ class Harness:
         self.assumed = []          # assumed contracts used
         self.notes = []
         self.t_gen = 0.0
-        self.structural_failures = []   # obligations decided without a solver (concrete False)
+        self.structural_failures = []
+        self.vacuous = []               # runs that produced no obligation at all (checker fault)   # obligations decided without a solver (concrete False)
 
     # ------------------------------------------------------------------ extraction
     def fn(self, relpath, qualpath):
@@ -64,6 +65,8 @@ class Harness:
             self.t_gen += time.time() - t0
             return None
         fuc.paths += len(results)
+        if not any(r.ctx.obligations for r in results):
+            self.vacuous.append(base)
         for pi, r in enumerate(results):
             for o in r.ctx.obligations:
                 self.add_obligation(f'{base}/{o.name}#p{pi}', o, fuc)
